@@ -8,7 +8,8 @@
     The cache is a pure function of (structure, current parameter values): [update_parameter]
     carries [@_invalidate_cache] (pinned fact [rf_model_shape]).  The evaluation order
     ([cache.order], the sorter's result -- property C02) is an INPUT of the model ([m_order]).
-    Not modelled (no such components are generated): surrogates, data, initial assignments.
+    Not modelled (no such components are generated): surrogates, data, initial assignments
+    (assignment-defined parameters are exercised by the harness oracle only, see design/C10.md).
 
     Layer B (Simulation): a result is segments + per-segment parameter dicts; the mutable state
     touched by reading a view is (current parameter values of the shared model, raw_args).
@@ -43,6 +44,12 @@ Fixpoint map_res {A B} (f : A -> res B) (l : list A) : res (list B) :=
               | Err e => Err e
               | Ok y => match map_res f r with Err e => Err e | Ok ys => Ok (y :: ys) end
               end
+  end.
+
+Fixpoint map_opt {A B} (f : A -> option B) (l : list A) : option (list B) :=
+  match l with
+  | [] => Some []
+  | x :: r => match f x, map_opt f r with Some y, Some ys => Some (y :: ys) | _, _ => None end
   end.
 
 (** dictionaries = insertion-ordered association lists *)
@@ -357,16 +364,31 @@ Section Sem.
                      end
     end.
 
+  (** a declared coefficient evaluated on the values of one row *)
+  Definition coef_val (e : env) (c : coef) : option Z :=
+    match c with
+    | CStat z => Some z
+    | CDyn f args => calc (mkCall f args) e
+    end.
+
+  (** the values reported for one row of a table ([row.to_dict() | {"time": time}]) *)
+  Definition row_env (tb : frame Z) (tr : Z * list Z) : env :=
+    (time_name, fst tr) :: combine (f_cols tb) (snd tr).
+
   (* ---------------------------------------------------------------------------------- *)
   (** * Layer B: the Simulation *)
 
   Inductive norm_rows_kind := NRFixed | NRRebindEmpty | NRUnknown.
+  (** get_producers / get_consumers: [PKFirst] = the snapshot's bodies (sign decided once, under the
+      first segment's parameters at the model's initial state); [PKRows] = the repaired bodies
+      (fixes/C10-prodcons-per-segment.diff: coefficient evaluated on every reported row) *)
+  Inductive prod_kind := PKFirst | PKRows | PKUnknown.
   Record res_facts := mkResFacts {
     rf_norm_rows : norm_rows_kind;   (* per-row branch of _normalise_split_results *)
     rf_fill_guard : bool;            (* _compute_args: `if len(self.raw_args) > 0: return self.raw_args` *)
     rf_fill_reapply : bool;          (* _compute_args: update_parameters(p) before each segment's table *)
     rf_rhs_reapply : bool;           (* get_right_hand_side: update_parameters(p) per segment *)
-    rf_prod_shape : bool;            (* get_producers / get_consumers are the modelled bodies *)
+    rf_prod : prod_kind;             (* which bodies get_producers / get_consumers have *)
     rf_select_adjust_shape : bool;   (* _select_data / _adjust_data / scalar + per-segment branches *)
     rf_views_shape : bool;           (* get_args/get_variables/get_fluxes/get_combined/get_new_y0/properties *)
     rf_model_shape : bool            (* model.py: update_parameter(s), get_arg_names, rhs time course, stoichiometries *)
@@ -394,6 +416,8 @@ Section Sem.
   Inductive out :=
   | VFrame (f : frame Q)
   | VFrames (l : list (frame Q))
+  | VMFrame (f : frame (option Q))           (* a frame with NaN cells ([None]) *)
+  | VMFrames (l : list (frame (option Q)))
   | VDict (d : list (name * Q))
   | VUnit
   | VErr (e : err)
@@ -583,7 +607,7 @@ Section Sem.
     end.
 
   (** [get_producers] ([neg=false], [v > 0]) and [get_consumers] ([neg=true], [v < 0]) *)
-  Definition view_prodcons (fx : res_facts) (m : model) (r : simres) (neg : bool) (v : name)
+  Definition view_prodcons_first (fx : res_facts) (m : model) (r : simres) (neg : bool) (v : name)
              (scaled : bool) (n : norm) (conc : bool) (st : state) : out * state :=
     match r_pars r with
     | [] => (VErr EIndex, st)
@@ -620,6 +644,113 @@ Section Sem.
                  | _ => (VErr EValue, st1)
                  end
              end
+    end.
+
+  (** ** the repaired bodies ([_get_fluxes_by_sign], fixes/C10-prodcons-per-segment.diff) *)
+
+  (** [factors]: the declared coefficient of [v] in every reaction that mentions it, declaration order *)
+  Definition factors_of (m : model) (v : name) : list (name * coef) :=
+    flat_map (fun nr => match lookup v (r_st (snd nr)) with Some c => [(fst nr, c)] | None => [] end) (m_rxn m).
+
+  Definition signed (neg : bool) (z : Z) : Z := if neg then - z else z.
+
+  (** the coefficient frame of one reported table: per row, [sign * coefficient] of every factor,
+      evaluated on the values reported in that row *)
+  Definition coef_rows (neg : bool) (fs : list (name * coef)) (tb : frame Z) : res (list (list Z)) :=
+    map_res (fun tr => of_opt EKey (map_opt (fun nc => option_map (signed neg) (coef_val (row_env tb tr) (snd nc))) fs))
+            (combine (f_idx tb) (f_rows tb)).
+
+  (** [(c[k] > 0).any()] over all segments *)
+  Definition pos_somewhere (coefs : list (list (list Z))) (j : nat) : bool :=
+    existsb (fun rows => existsb (fun row => 0 <? nth j row 0) rows) coefs.
+  Definition indexed {A} (l : list A) : list (nat * A) := combine (seq 0 (length l)) l.
+  (** [names] with the position of each in [factors] *)
+  Definition kept (fs : list (name * coef)) (coefs : list (list (list Z))) : list (nat * name) :=
+    map (fun jnc => (fst jnc, fst (snd jnc))) (filter (fun jnc => pos_somewhere coefs (fst jnc)) (indexed fs)).
+
+  (** one cell of [flux.loc[:, names].where(coef > 0)] (then [* coef] if scaled) *)
+  Definition mask_cell (scaled : bool) (q : Q) (c : Z) : option Q :=
+    if 0 <? c then Some (if scaled then (q * inject_Z c)%Q else q) else None.
+
+  Definition mask_row (scaled : bool) (kp : list (nat * name)) (cols : list name) (frow : list Q) (crow : list Z)
+    : option (list (option Q)) :=
+    map_opt (fun jn => match lookup (snd jn) (combine cols frow) with
+                       | None => None                              (* .loc[:, names]: KeyError *)
+                       | Some q => Some (mask_cell scaled q (nth (fst jn) crow 0))
+                       end) kp.
+
+  Definition mask_frame (scaled : bool) (kp : list (nat * name)) (f : frame Q) (cr : list (list Z))
+    : res (frame (option Q)) :=
+    match map_res (fun fc => of_opt EKey (mask_row scaled kp (f_cols f) (fst fc) (snd fc))) (combine (f_rows f) cr) with
+    | Err e => Err e
+    | Ok rows => Ok (mkFrame (f_idx f) (map snd kp) rows)
+    end.
+
+  (** zip(strict=True) over the flux frames and the coefficient frames *)
+  Fixpoint mask_all (scaled : bool) (kp : list (nat * name)) (fl : list (frame Q)) (coefs : list (list (list Z)))
+    : res (list (frame (option Q))) :=
+    match fl, coefs with
+    | [], [] => Ok []
+    | f :: fl', cr :: coefs' =>
+        match mask_frame scaled kp f cr with
+        | Err e => Err e
+        | Ok mf => match mask_all scaled kp fl' coefs' with Err e => Err e | Ok r => Ok (mf :: r) end
+        end
+    | _, _ => Err EValue
+    end.
+
+  Definition mconcat0 (data : list (frame (option Q))) : res (frame (option Q)) :=
+    match data with
+    | [] => Err EValue
+    | f :: _ => Ok (mkFrame (concat (map f_idx data)) (f_cols f) (concat (map f_rows data)))
+    end.
+
+  Definition view_prodcons_rows (fx : res_facts) (m : model) (r : simres) (neg : bool) (v : name)
+             (scaled : bool) (n : norm) (conc : bool) (st : state) : out * state :=
+    match factors_of m v with
+    | [] => (VErr EKey, st)                                  (* raise KeyError(variable) *)
+    | fs =>
+        let '(ra, st1) := compute_args fx m r st in
+        match ra with
+        | Err e => (VErr e, st1)
+        | Ok tbs =>
+            match map_res (coef_rows neg fs) tbs with
+            | Err e => (VErr e, st1)
+            | Ok coefs =>
+                let kp := kept fs coefs in
+                let '(o, st2) := view_selected fx m r (flags_fluxes true) n false st1 in
+                match o with
+                | VFrames fl =>
+                    match mask_all scaled kp fl coefs with
+                    | Err e => (VErr e, st2)
+                    | Ok ml =>
+                        match r_pars r with
+                        | [] => (VErr EIndex, st2)           (* self.raw_parameters[-1] *)
+                        | _ =>
+                            let '(cur3, ok3) := apply_params (last (r_pars r) []) (s_cur st2) in
+                            let st3 := mkSt cur3 (s_raw st2) in
+                            if negb ok3 then (VErr EKey, st3)
+                            else if conc then match mconcat0 ml with
+                                              | Ok f => (VMFrame f, st3)
+                                              | Err e => (VErr e, st3)
+                                              end
+                                 else (VMFrames ml, st3)
+                        end
+                    end
+                | VErr e => (VErr e, st2)
+                | _ => (VErr EValue, st2)
+                end
+            end
+        end
+    end.
+
+  (** [get_producers] ([neg=false]) / [get_consumers] ([neg=true]) as the source has them *)
+  Definition view_prodcons (fx : res_facts) (m : model) (r : simres) (neg : bool) (v : name)
+             (scaled : bool) (n : norm) (conc : bool) (st : state) : out * state :=
+    match rf_prod fx with
+    | PKFirst => view_prodcons_first fx m r neg v scaled n conc st
+    | PKRows => view_prodcons_rows fx m r neg v scaled n conc st
+    | PKUnknown => (VOther, st)
     end.
 
   (** [pd.concat((variables, fluxes), axis=1)] (equal indexes) *)
@@ -687,10 +818,17 @@ Definition err_eqb (a b : err) : bool :=
 Definition frame_eqb (a b : frame Q) : bool :=
   list_eqb Z.eqb (f_idx a) (f_idx b) && list_eqb N.eqb (f_cols a) (f_cols b)
   && list_eqb (list_eqb Qeq_bool) (f_rows a) (f_rows b).
+Definition oq_eqb (a b : option Q) : bool :=
+  match a, b with Some x, Some y => Qeq_bool x y | None, None => true | _, _ => false end.
+Definition mframe_eqb (a b : frame (option Q)) : bool :=
+  list_eqb Z.eqb (f_idx a) (f_idx b) && list_eqb N.eqb (f_cols a) (f_cols b)
+  && list_eqb (list_eqb oq_eqb) (f_rows a) (f_rows b).
 Definition out_eqb (a b : out) : bool :=
   match a, b with
   | VFrame x, VFrame y => frame_eqb x y
   | VFrames x, VFrames y => list_eqb frame_eqb x y
+  | VMFrame x, VMFrame y => mframe_eqb x y
+  | VMFrames x, VMFrames y => list_eqb mframe_eqb x y
   | VDict x, VDict y => list_eqb (fun p q => N.eqb (fst p) (fst q) && Qeq_bool (snd p) (snd q)) x y
   | VUnit, VUnit => true
   | VErr x, VErr y => err_eqb x y
